@@ -154,7 +154,7 @@ func (V *Verifier) runTop(fn *ssa.Function, key string, fs *FuncSpec, cands map[
 				}
 			}
 			// captured variables of closures are visible by name
-			sc.Fr = &Frame{Fn: fn, Free: fr.Free, Cells: map[*ssa.Alloc]*Cell{}}
+			sc.Fr = &Frame{Fn: fn, Free: fr.Free, Cells: map[*ssa.Alloc]*Cell{}, Regs: map[ssa.Value]*Val{}}
 			t := sc.EvalBool(e.Expr)
 			X.oblige(r.St, "post", e.Label, "postcondition: "+e.Src, r.Pos, t)
 		}
@@ -430,7 +430,7 @@ func (X *Exec) evalEntryExpr(src string) (t *Term) {
 	}
 	st := X.Entry.Clone()
 	sc := X.clauseCtx(X.TopFrame, st, nil, "replay value "+src)
-	sc.Fr = nil
+	sc.Fr = &Frame{Fn: X.TopFrame.Fn, Free: X.TopFrame.Free, Cells: map[*ssa.Alloc]*Cell{}, Regs: map[ssa.Value]*Val{}}
 	sc.Old = X.Entry
 	for k, v := range X.TopFrame.ParamEntry {
 		sc.Vars[k] = v
